@@ -440,41 +440,9 @@ def slice_zero(ctx) -> None:
 def instance_state(ctx) -> None:
     """A transform object's answers depend on its own shape/seed only: no mutable container declared on the class
     (shared by all instances) is filled by its methods."""
-    rule = "C15.instance-state"
-    MUT = {"append", "extend", "insert", "pop", "clear", "update", "setdefault", "__setitem__", "add"}
-    n = 0
-    for cname in ("WellShifter", "WellRotator", "WellRandomizer"):
-        cls = ctx.prog.require_class(cname, rule)
-        n += 1
-        shared = {}
-        for k, v in cls.class_assigns.items():
-            if isinstance(v, (ast.Dict, ast.List, ast.Set, ast.DictComp, ast.ListComp, ast.SetComp)) or (isinstance(v, ast.Call) and call_fname(v) in ("dict", "list", "set", "defaultdict", "OrderedDict")):
-                shared[k] = v
-        hits = []
-        for m in cls.methods.values():
-            ctx.rep.touch(m)
-            selfn = m.params[0] if m.params else None
-            for sub in own_walk(m.node):
-                root = None
-                if isinstance(sub, ast.Subscript) and isinstance(sub.ctx, (ast.Store, ast.Del)):
-                    root = sub.value
-                elif isinstance(sub, ast.Call) and isinstance(sub.func, ast.Attribute) and sub.func.attr in MUT:
-                    root = sub.func.value
-                while isinstance(root, ast.Subscript):
-                    root = root.value
-                if isinstance(root, ast.Attribute) and root.attr in shared and (is_name(root.value, selfn) or is_name(root.value, cname) or is_name(root.value, "cls")
-                                                                             or (isinstance(root.value, ast.Call) and call_fname(root.value) == "type")):
-                    # an instance attribute of the same name assigned in __init__ shadows the class attribute
-                    init = cls.methods.get("__init__")
-                    shadow = init is not None and any(isinstance(x, ast.Attribute) and x.attr == root.attr and isinstance(x.ctx, ast.Store) and is_name(x.value, init.params[0]) for x in own_walk(init.node))
-                    if not shadow:
-                        hits.append((m, sub, root.attr))
-        for m, sub, attr in hits:
-            ctx.rep.refuted(rule, f"{m.qualname}/{attr}", f"`{cname}.{attr}` is a container declared on the class and filled by {m.name}: it is shared by all {cname} objects, so the result "
-                            "computed for one plate shape / seed is returned for another", where=m.where(sub))
-        if not hits:
-            ctx.rep.holds(rule, cname, f"no class-level container is mutated by the methods of {cname} ({len(shared)} class-level containers)")
-    ctx.rep.floor(rule, "transform classes", n, 3)
+    from .common import class_state_rule
+
+    class_state_rule(ctx, "C15.instance-state", ("WellShifter", "WellRotator", "WellRandomizer"), "plate shape / seed")
 
 
 def _modes_of(fv, node: int):
